@@ -1,4 +1,5 @@
 import MsiProofs.Props.C09b
+import MsiProofs.Lemmas.DeleteValidation
 /-
 More of "no panic outcome" (property C09), on ANY package state (no invariant assumed — the state
 may come from a foreign or damaged file): `drop_table` never panics; `create_table` never panics
@@ -176,6 +177,8 @@ theorem np_catalogRoomOne (s : Pkg) (catalog key name : List Char) (n : Nat) : N
 
 theorem np_catalogRoom (s : Pkg) (name : List Char) (cols : List Column) : NoPanic (catalogRoom s name cols) := by
   unfold catalogRoom
+  split
+  · exact np_err _
   have h1 := np_catalogRoomOne s Gen.nameColumns.toList "Table".toList name cols.length
   cases hr1 : catalogRoomOne s Gen.nameColumns.toList "Table".toList name cols.length with
   | err k => exact np_err _
@@ -287,7 +290,7 @@ theorem dropTable_never_panics (s : Pkg) (name : List Char) : NoPanic (dropTable
   | none => exact np_err _
   | some t =>
     simp only
-    have tail : ∀ s1 : Pkg, NoPanic (match deleteRows s1 Gen.nameValidation.toList (eqStr "Table" name) with
+    have tail : ∀ s1 : Pkg, NoPanic (match deleteValidation s1 name with
         | (s2, .ok ()) =>
           match deleteRows s2 Gen.nameColumns.toList (eqStr "Table" name) with
           | (s3, .ok ()) =>
@@ -297,8 +300,11 @@ theorem dropTable_never_panics (s : Pkg) (name : List Char) : NoPanic (dropTable
           | r => r
         | r => r).2 := by
       intro s1
-      have n2 := delete_never_panics { s1 with finisher := true } Gen.nameValidation.toList (eqStr "Table" name)
-      generalize hr2 : deleteRows s1 Gen.nameValidation.toList (eqStr "Table" name) = r2
+      have n2 : NoPanic (deleteValidation s1 name).2 := by
+        rcases MsiProofs.DeleteValidation.deleteValidation_cases s1 name with e | e <;> rw [e]
+        · exact delete_never_panics { s1 with finisher := true } Gen.nameValidation.toList (eqStr "Table" name)
+        · exact np_ok _
+      generalize hr2 : deleteValidation s1 name = r2
       have n2' : NoPanic r2.2 := by rw [← hr2]; exact n2
       obtain ⟨s2, res2⟩ := r2
       cases res2 with
